@@ -219,8 +219,28 @@ def curated_rows(arch):
     return out
 
 
+def _extra_vectors(arch):
+    """Immediate-boundary vectors for the variable-length 16-bit ISA whose enumeration stratum takes its
+    extension words from the fixed fillers only: msp430 format-I / push instructions with an immediate source
+    (As=3, src=PC) for the immediates around the byte / constant-generator boundaries."""
+    if isinstance(arch, str):
+        arch = ARCHS[arch]
+    if arch.family != "msp430":
+        return []
+    out = []
+    imms = [0x00FF, 0x00FE, 0x0100, 0xFF00, 0xFFFE, 0x7FFF, 0x8000, 0x0003, 0x0010, 0x0080]
+    for op in (0x4, 0x5, 0x6, 0x7, 0x8, 0x9, 0xB, 0xD, 0xE, 0xF):           # mov add addc subc sub cmp bit bis xor and
+        for bw in (0, 1):
+            for imm in imms:
+                word = (op << 12) | (0 << 8) | (bw << 6) | (3 << 4) | 5     # #imm, R5
+                out.append(word.to_bytes(2, "little") + imm.to_bytes(2, "little") + b"\x00" * 4)
+    for imm in imms:
+        out.append((0x1230).to_bytes(2, "little") + imm.to_bytes(2, "little") + b"\x00" * 4)   # push #imm
+    return out
+
+
 def curated(arch):
-    return [b for _t, b in curated_rows(arch)]
+    return [b for _t, b in curated_rows(arch)] + _extra_vectors(arch)
 
 
 # ----------------------------------------------------------------------------------------------
